@@ -53,7 +53,7 @@ ENGINES["plugins"] = dict(
 )
 
 ENGINES["file"] = dict(
-    drv="file", starts=("freset",),
+    drv="file", starts=("freset",), diverge_owner=lambda line, pid, msg: pid != "C19",   # C19 only reads "cannot be put on the wire" off this engine
     trivial=r"^(fq4 .* => pass$)|(fq6 .* => pass$)",
     branches=["fsetup4.ok", "fsetup4.rejected", "fsetup6.ok", "fsetup6.rejected", "fwrite.good", "fwrite.bad", "fq4.listed", "fq4.pass",
               "fq6.listed", "fq6.pass", "fq6.no-iana", "fq6.no-mac", "file.comment-line", "file.empty-line", "file.duplicate-mac"],
@@ -147,7 +147,7 @@ PROPS = {
                      "DHCPv6 plugins that append (nbp) are judged on responses that do not already carry their option and on request lists without repeated codes (C17.dom6)"],
     ),
     "C19": dict(
-        engines=[("plug", 4000, 60000), ("chain", 1500, 30000), ("sys", 1500, 30000), ("prefix", 2500, 40000)],
+        engines=[("plug", 4000, 60000), ("chain", 1500, 30000), ("sys", 1500, 30000), ("prefix", 2500, 40000), ("file", 1500, 20000)],
         theorems=["C19_setup_wireOK", "C19_setup_wireOK4", "C19_staticroute_rejects_non_ipv4", "C19_routes_roundtrip", "C19_labels_roundtrip", "C19_ips_roundtrip", "C19_bootparams_roundtrip",
                   "C19_oversize6_refuted", "C13_nil_stop_builtin", "C13_nil_stop_builtin6"],
         modules=["CoreDhcp.Props.C19", "CoreDhcp.Props.Builtin"],
